@@ -124,7 +124,8 @@ def gen_strat_opt(rng):
     opts = []
     rng.shuffle(sites)
     # count / sum sites first: they are the ones that must keep firing
-    sites.sort(key=lambda s: 0 if (rules[s[0]]["body"][s[1]][0] == "agg" and rules[s[0]]["body"][s[1]][2] in ("count", "sum")) else 1)
+    if rng.random() < 0.7:
+        sites.sort(key=lambda s: 0 if (rules[s[0]]["body"][s[1]][0] == "agg" and rules[s[0]]["body"][s[1]][2] in ("count", "sum")) else 1)
     ntarget = rng.choice([1, 1, 2, 3])
     for ri, bi in sites[:ntarget]:
         it = rules[ri]["body"][bi]
@@ -197,6 +198,11 @@ def gen_reach_opt(rng):
         kind = rng.choice(["min", "max"])
         rules.append(rule([("lo", [V("x"), V("m")])], [clause("reach", "x"), ("agg", "m", kind, ["wv"], "w", [("k", V("x")), ("b", "wv")])]))
         extra.append("lo")
+    if rng.random() < 0.6:
+        rels.append(("open", 1, "rel"))
+        o = rng.choice(["blk", "w"])
+        rules.append(rule([("open", [V("x")])], [clause("reach", "x"), ("neg", o, [V("x")] + [("w",)] * ((ba if o == "blk" else 2) - 1))]))
+        extra.append("open")
     # downstream readers of the results
     if "cost" in extra and rng.random() < 0.8:
         rels.append(("cheap", 1, "rel"))
@@ -213,6 +219,9 @@ def gen_reach_opt(rng):
         if rng.random() < 0.5:
             rels.append(("nfree", 1, "rel"))
             rules.append(rule([("nfree", [("f", "asi32", ["n"])])], [("agg", "n", "count", [], "free", [("w",), ("w",)])]))
+    if "open" in extra and rng.random() < 0.5:
+        rels.append(("nopen", 1, "rel"))
+        rules.append(rule([("nopen", [("f", "asi32", ["n"])])], [("agg", "n", "count", [], "open", [("w",)])]))
     if "lo" in extra and rng.random() < 0.5:
         rels.append(("nolo", 1, "rel"))
         rules.append(rule([("nolo", [V("x")])], [clause("start", "x"), ("neg", "lo", [V("x"), ("w",)])]))
@@ -226,7 +235,7 @@ def gen_reach_opt(rng):
 
 def gen_cases(tier, seed, prop="C09"):
     rng = lib.rng_for(seed, prop, "opt")
-    n = 8 if tier == "quick" else 48
+    n = 8 if tier == "quick" else 24
     cases = []
     for i in range(n):
         if i % 2 == 0:
@@ -255,7 +264,7 @@ def gen_cases(tier, seed, prop="C09"):
                 if any(inp[n_] for inp in inputs) and not all(inp[n_] for inp in inputs) and rng.random() < 0.5:
                     for inp in inputs:
                         inp[n_] = []
-        cases.append(dict(id="c09_o%d" % i, prog=p, inputs=inputs, origin="generated-opt", opt_family=True, optional=opts,
+        cases.append(dict(id="c09_o%d" % i, prog=p, inputs=inputs, origin="generated-opt", opt_family=True, optional=opts, sub=("reach" if i % 2 == 0 else "strat"),
                           never_filled=never_filled(p, inputs)))
     return cases
 
@@ -389,7 +398,7 @@ def stats(cases, jobs, okc):
     for c in cases:
         for _, an, _ in empty_agg_sites(c["prog"], c["inputs"]):
             sites[an] = sites.get(an, 0) + 1
-    return dict(programs=len(cases), programs_strat=sum(1 for c in cases if c["id"][-1] in "13579"),
-                never_filled_relations=sum(len(c.get("never_filled", [])) for c in cases),
+    return dict(programs=len(cases), programs_from_the_stratified_generator=sum(1 for c in cases if c.get("sub") == "strat"),
+                never_filled_relations=sum(len(never_filled(c["prog"], c["inputs"])) for c in cases),
                 aggregates_over_never_filled_relations=sites,
                 packaging_jobs=len(jobs), scripts_agreeing=okc)
